@@ -233,6 +233,60 @@ def r13_3(ctx, fx, recs):
     ctx.floor(rid, n, 110, "member x m_swap obligations")
 
 
+COPY_EXC = {
+}
+
+
+def r13_6(ctx):
+    """User-provided copy constructors give every data member a value."""
+    from rules.c14 import units_alloc
+    from pplv import effects as E
+    rid = "R13.6"
+    ctx.rule(rid, "copy constructors cover every member: a user-provided copy constructor names each non-static data member of its class in the initialiser list, writes it in the body, or calls a same-class helper whose may-write summary contains it (a delegating constructor is followed); a member left out is default-initialised — or not initialised at all — in the copy, which is then not the same value as the original")
+    fx = ctx.extract(units_alloc())
+    recs = class_records(fx)
+    sums = {}
+    n = 0
+    seen = set()
+    for f in sorted(fx.functions, key=lambda f: bool(f.flag("pattern"))):
+        if not f.flag("copyctor") or not f.cls:
+            continue
+        k = ckey(f.cls)
+        if k in seen or k not in recs:
+            continue
+        seen.add(k)
+        rec = recs[k]
+        inits = f.j.get("inits") or []
+        if any(i.get("delegating") for i in inits):
+            n += 1
+            ctx.ok(rid, "%s(const %s&) delegates" % (k, k), f.where())
+            continue
+        named = set(i.get("member") for i in inits if i.get("member"))
+        sm = sums.setdefault(f.clsn, E.Summaries(fx, f.clsn))
+        written = set(sm.may_write(f))
+        for x in f.walk():
+            if x["k"] == "member":
+                r = f.root(x)
+                if r[0] == "this" and len(r) > 1:
+                    written.add(r[1])
+            if x["k"] == "ocall" and x.get("op") == "=" and x.get("c"):
+                # `*this = y`: the members the copy assignment of the class may write
+                l = f.deref(x["c"][-2]) if len(x["c"]) >= 2 else None
+                if l is not None and f.root(l) == ("this",):
+                    for g in sm.by_name.get("operator=", []):
+                        written |= set(sm.may_write(g))
+        for fld in rec["fields"]:
+            n += 1
+            inst = "%s(const %s&) %s" % (k, k, fld["n"])
+            if fld["n"] in named or fld["n"] in written or "*this" in written:
+                ctx.ok(rid, inst, f.where())
+            elif (k, fld["n"]) in COPY_EXC:
+                ctx.excepted(rid, inst, f.where(), COPY_EXC[(k, fld["n"])])
+            else:
+                ctx.violation(rid, inst, f.where(), "data member `%s` is neither initialised nor written by the copy constructor" % fld["n"])
+    ctx.floor(rid, n, 120, "member x copy constructor obligations")
+
+
 def r13_4(ctx):
     """Const arguments: who may strip constness, and what they may then do."""
     import json
@@ -344,6 +398,7 @@ def run(ctx):
     r13_3(ctx, fx, recs)
     r13_4(ctx)
     r13_8(ctx)
+    r13_6(ctx)
     fx9 = ctx.extract(c09.units(ctx.tier))
     ctx.rule("R9.1", "see C09")
     c09.r9_1(ctx, fx9)
